@@ -31,7 +31,7 @@ use std::sync::atomic::{AtomicU64, Ordering};
 use std::sync::{Arc, Mutex};
 use std::time::Duration;
 
-use saito_core::core::consensus::block::{Block, BlockType};
+use saito_core::core::consensus::block::{Block, BlockType, BLOCK_HEADER_SIZE};
 use saito_core::core::consensus::blockchain::Blockchain;
 use saito_core::core::consensus::blockchain_sync_state::BlockchainSyncState;
 use saito_core::core::consensus::golden_ticket::GoldenTicket;
@@ -885,6 +885,12 @@ enum ServeK {
     /// the block that was announced under this hash (crafted or honest)
     AsAnnounced,
     Truncated,
+    /// cut at a random position (per mille of the length)
+    CutAt(u16),
+    /// transaction count in the header raised by one, 1..15 stray bytes appended
+    CountPatched(u8),
+    /// the header alone, claiming one transaction, plus 1..15 stray bytes
+    HeaderOnly(u8),
     Empty,
     Garbage,
     /// a different, valid block
@@ -899,6 +905,12 @@ enum Act {
     HDisconnect,
     Tick(u64),
     NMine,
+    /// local IO events that no peer controls but that the handlers must survive: a STUN peer (index 5) is
+    /// added / removed, a connection attempt fails
+    LStun(bool),
+    LConnErr,
+    /// a batch of transactions handed to the verification thread (VerifyRequest::Transactions): one valid, two not
+    HTxBatch,
     AConnect(u64),
     ADisconnect(u64, bool),
     AMsg(u64, Msg),
@@ -1356,6 +1368,13 @@ struct MEv {
     repeat: u64,
 }
 
+/// (limit, window) of a RateLimiter, from its Debug output
+fn parse_limiter_consts(dbg: &str) -> (u64, u64) {
+    let grab = |k: &str| -> u64 {
+        dbg.split(k).nth(1).map(|r| r.trim_start_matches(':').trim().chars().take_while(|c| c.is_ascii_digit()).collect::<String>()).and_then(|x| x.parse().ok()).unwrap_or(0)
+    };
+    (grab("limit"), grab("window"))
+}
 fn parse_limiter(dbg: &str) -> (u64, u64) {
     // RateLimiter { limit: 100, window: 60000, request_count: 0, last_request_time: 0 }
     let grab = |k: &str| -> u64 {
@@ -1379,7 +1398,7 @@ impl World {
                 }
                 let p = &peers.index_to_peers[i];
                 v.push(format!(
-                    "{}:{}:{:?}:{}:{}:{}:{:?}:{:?}:{}:{}",
+                    "{}:{}:{:?}:{}:{}:{}:{:?}:{:?}:{}:{}:{}",
                     i,
                     match p.peer_status { PeerStatus::Connected => 2, PeerStatus::Connecting => 1, PeerStatus::Disconnected(..) => 0 },
                     p.public_key.map(|k| hex::encode(&k[..6])),
@@ -1389,7 +1408,8 @@ impl World {
                     p.wallet_version,
                     p.core_version,
                     p.challenge_for_peer.is_some(),
-                    p.static_peer_config.is_some()
+                    p.static_peer_config.is_some(),
+                    hex::encode(&hash(&[p.key_list.concat(), p.services.iter().map(|s| format!("{}|{}|{};", s.service, s.domain, s.name)).collect::<String>().into_bytes()].concat())[..6])
                 ));
             }
             out.push(("peers".to_string(), v.join("|")));
@@ -1449,6 +1469,12 @@ impl World {
             sl.sort();
             out.push(("wallet".to_string(), format!("bal={} slips=[{}] keys={}", w.get_available_balance(), sl.join(","), w.key_list.len())));
         }
+        {
+            // transactions the verification thread let through, waiting for the next producer tick
+            let mut st: Vec<String> = self.n.consensus.txs_for_mempool.iter().map(|t| hex::encode(&t.signature[..6])).collect();
+            st.sort();
+            out.push(("staged_txs".to_string(), st.join(",")));
+        }
         out
     }
 
@@ -1468,7 +1494,14 @@ impl World {
                     let (hc, hl) = parse_limiter(&format!("{:?}", p.handshake_limiter));
                     let (kc, kl) = parse_limiter(&format!("{:?}", p.key_list_limiter));
                     let (ic, il) = parse_limiter(&format!("{:?}", p.invalid_block_limiter));
-                    rows.push(vec![c, 1, key, p.key_list.len() as u64, p.challenge_for_peer.is_some() as u64, mc, ml, hc, hl, kc, kl, ic, il]);
+                    let mut row = vec![c, 1, key, p.key_list.len() as u64, p.challenge_for_peer.is_some() as u64, mc, ml, hc, hl, kc, kl, ic, il];
+                    // limits and windows of the four limiters (message, handshake, key list, invalid block)
+                    for l in [&p.message_limiter, &p.handshake_limiter, &p.key_list_limiter, &p.invalid_block_limiter] {
+                        let (lim, win) = parse_limiter_consts(&format!("{:?}", l));
+                        row.push(lim);
+                        row.push(win);
+                    }
+                    rows.push(row);
                 }
             }
         }
@@ -1564,8 +1597,9 @@ struct Runner {
     log_eval: bool,
     /// oracle bit for the model: Blockchain::generate_last_shared_ancestor answers 0 for the request at hand
     ghost_anc0: bool,
-    /// rate limiter quotas found not enforced during the current step
+    /// rate limiter quotas / refusal rules found not enforced during the current step
     limiter_failures: Vec<String>,
+    lite: bool,
     /// invalid-block counter of each attacker connection as the model has been told so far
     inv_seen: BTreeMap<u64, u64>,
 }
@@ -1647,6 +1681,7 @@ impl Runner {
         let cur_challenge = self.w.att.get(&conn).map(|a| a.challenge.is_some()).unwrap_or(false);
         let before = self.w.n.verification.processed_msgs.total;
         let sent_before: u64 = self.w.to_attacker.values().sum();
+        let headers_before: u64 = self.w.to_attacker.get(&6).copied().unwrap_or(0);
         let keylist_before: Option<Vec<SaitoPublicKey>> = {
             let peers = self.w.n.peers.read().await;
             peers.index_to_peers.get(&conn).map(|p| p.key_list.clone())
@@ -1701,6 +1736,15 @@ impl Runner {
             }
         }
         let verified = self.w.n.verification.processed_msgs.total > before;
+        if verified && matches!(m, Msg::Tx(TxK::BadSig) | Msg::Tx(TxK::Unfunded) | Msg::Tx(TxK::SelfHop) | Msg::Tx(TxK::BadHopSig) | Msg::Tx(TxK::HugeOut)) {
+            self.limiter_failures.push(format!("an invalid transaction ({:?}) was forwarded to the consensus thread by VerificationThread::verify_tx", m));
+        }
+        if self.lite && matches!(m, Msg::ChainReq(..)) {
+            let answered: u64 = self.w.to_attacker.get(&6).copied().unwrap_or(0);
+            if answered > headers_before {
+                self.limiter_failures.push("a lite node answered a BlockchainRequest with block header hashes".to_string());
+            }
+        }
         if verified {
             let t = self.msg_term(conn, m_for_term, true, data_len, cur_challenge).await;
             if let Some(last) = self.w.trace.last_mut() {
@@ -1778,6 +1822,46 @@ impl Runner {
                 self.w.b.timer(*ms).await?;
                 self.w.settle().await?;
             }
+            Act::LStun(add) => {
+                let ev = if *add {
+                    NetworkEvent::AddStunPeer { peer_index: 5, public_key: keypair(20).0 }
+                } else {
+                    NetworkEvent::RemoveStunPeer { peer_index: 5 }
+                };
+                self.w.n.net_event(ev).await?;
+                self.w.pump().await?;
+            }
+            Act::LConnErr => {
+                self.w.n.net_event(NetworkEvent::PeerConnectionResult { result: Err(std::io::Error::from(std::io::ErrorKind::ConnectionRefused)) }).await?;
+                self.w.pump().await?;
+            }
+            Act::HTxBatch => {
+                let mut batch: std::collections::VecDeque<Transaction> = Default::default();
+                let mut n_valid = 0usize;
+                if !self.w.b_slips.is_empty() {
+                    let sl = self.w.b_slips.remove(0);
+                    batch.push_back(make_tx(&[sl.clone()], &[(self.w.b.pk, sl.amount)], &self.w.b.sk.clone(), self.w.now));
+                    n_valid += 1;
+                }
+                batch.push_back(self.w.attacker_tx(&TxK::BadSig, rng));
+                batch.push_back(self.w.attacker_tx(&TxK::Unfunded, rng));
+                let staged_before = self.w.n.consensus.txs_for_mempool.len();
+                let synced = {
+                    let bc = self.w.n.blockchain.read().await;
+                    bc.get_latest_block_id() > 0
+                };
+                let n = self.w.n.name;
+                futures_catch(AssertUnwindSafe(self.w.n.verification.process_event(VerifyRequest::Transactions(batch))))
+                    .await
+                    .map_err(|m| Stop::Panic(take_panic(n, "verification::process_event(Transactions)", m)))?;
+                self.w.pump().await?;
+                let staged_after = self.w.n.consensus.txs_for_mempool.len();
+                // verify_txs lets exactly the valid ones through (on a node that has the chain the inputs live on)
+                let expect = if synced { n_valid } else { 0 };
+                if staged_after.saturating_sub(staged_before) != expect {
+                    self.limiter_failures.push(format!("VerificationThread::verify_txs let {} of 3 transactions through, {} are valid", staged_after.saturating_sub(staged_before), expect));
+                }
+            }
             Act::NMine => {
                 if let Some((h, diff, _)) = self.w.n.miner_target {
                     let gt = mine_golden_ticket(h, diff, self.w.n.pk, rng.next());
@@ -1833,17 +1917,51 @@ impl Runner {
                 let (ev, kind) = match k {
                     ServeK::Fail => (NetworkEvent::BlockFetchFailed { block_hash: f.hash, peer_index: f.idx, block_id: f.id }, "EFetchFailed".to_string()),
                     _ => {
-                        let (buffer, fk) = match (k, announced) {
-                            (ServeK::AsAnnounced, Some(b)) => (b, "FAnnounced"),
-                            (ServeK::Truncated, Some(b)) => (b[..b.len() / 2].to_vec(), "FUndecodable"),
-                            (ServeK::Empty, _) => (vec![], "FUndecodable"),
-                            (ServeK::Garbage, _) => (rnd_bytes(rng, 300), "FUndecodable"),
-                            (ServeK::OtherBlock, _) | (ServeK::AsAnnounced, None) => {
-                                let g = self.w.chain[0].0;
-                                (self.w.buffers[&g].clone(), if g == f.hash { "FAnnounced" } else { "FMismatch" })
+                        // a block to mangle: the announced one, else the honest genesis block
+                        let base = announced.clone().unwrap_or_else(|| self.w.buffers[&self.w.chain[0].0].clone());
+                        let buffer: Vec<u8> = match (k, announced) {
+                            (ServeK::AsAnnounced, Some(b)) => b,
+                            (ServeK::Truncated, Some(b)) => b[..b.len() / 2].to_vec(),
+                            (ServeK::Truncated, None) => vec![1, 2, 3],
+                            (ServeK::CutAt(pm), _) => base[..(base.len() * (*pm as usize).min(1000)) / 1000].to_vec(),
+                            (ServeK::CountPatched(extra), _) => {
+                                let mut b = base.clone();
+                                let n = u32::from_be_bytes(b[0..4].try_into().unwrap()).wrapping_add(1);
+                                b[0..4].copy_from_slice(&n.to_be_bytes());
+                                b.extend(rnd_bytes(rng, (*extra as usize).clamp(1, 15)));
+                                b
                             }
-                            (ServeK::Truncated, None) => (vec![1, 2, 3], "FUndecodable"),
+                            (ServeK::HeaderOnly(extra), _) => {
+                                let mut b = base[..BLOCK_HEADER_SIZE.min(base.len())].to_vec();
+                                b[0..4].copy_from_slice(&1u32.to_be_bytes());
+                                b.extend(rnd_bytes(rng, (*extra as usize).clamp(1, 15)));
+                                b
+                            }
+                            (ServeK::Empty, _) => vec![],
+                            (ServeK::Garbage, _) => rnd_bytes(rng, 300),
+                            (ServeK::OtherBlock, _) | (ServeK::AsAnnounced, None) => self.w.buffers[&self.w.chain[0].0].clone(),
                             (ServeK::Fail, _) => unreachable!(),
+                        };
+                        // what verify_block will make of it is asked of the real decoder (a panic in there is
+                        // caught again when the real handler runs)
+                        let fk = {
+                            let b2 = buffer.clone();
+                            let (h, id) = (f.hash, f.id);
+                            match std::panic::catch_unwind(move || match Block::deserialize_from_net(&b2) {
+                                Err(_) => "FUndecodable",
+                                Ok(mut blk) => {
+                                    if blk.generate().is_err() {
+                                        "FUndecodable"
+                                    } else if blk.hash == h && blk.id == id {
+                                        "FAnnounced"
+                                    } else {
+                                        "FMismatch"
+                                    }
+                                }
+                            }) {
+                                Ok(x) => x,
+                                Err(_) => "FUndecodable",
+                            }
                         };
                         (NetworkEvent::BlockFetched { block_hash: f.hash, block_id: f.id, peer_index: f.idx, buffer }, format!("EFetched {}", fk))
                     }
@@ -1936,16 +2054,18 @@ fn frame_expected(act: &Act, spec: &CaseSpec) -> bool {
     match act {
         Act::AConnect(_) | Act::ADisconnect(..) => true,
         Act::AMsg(_, m) | Act::AFlood(_, m, _) => match m {
-            Msg::Tx(TxK::Valid) => false,
-            // a well-formed golden ticket is pooled
-            Msg::Tx(TxK::GtLen(97)) => false,
+            // must be refused by VerificationThread::verify_tx: nothing may be staged or pooled
+            Msg::Tx(TxK::BadSig) | Msg::Tx(TxK::Unfunded) | Msg::Tx(TxK::SelfHop) | Msg::Tx(TxK::BadHopSig) | Msg::Tx(TxK::HugeOut) => true,
+            // valid, or accepted for staging by the code as it is (typed transactions, golden tickets)
+            Msg::Tx(_) => false,
             _ => true,
         },
         // announcing triggers at most a fetch
         Act::AAnnounce(..) | Act::AAnnounceUnknown(..) => true,
         // the served buffer may be a valid block (judged below from the crafted kind)
         Act::AServe(ServeK::AsAnnounced) => false,
-        Act::AServe(ServeK::OtherBlock) => !spec.loading_completed && false,
+        // a different block than the one asked for (decided in run_case: not if the genesis block was asked for)
+        Act::AServe(ServeK::OtherBlock) => true,
         Act::AServe(_) => true,
         _ => false,
     }
@@ -1963,7 +2083,7 @@ async fn run_case(spec: &CaseSpec) -> CaseOut {
             return CaseOut { build_error: Some(e), ..Default::default() };
         }
     };
-    let mut r = Runner { w, out: CaseOut::default(), log_eval: spec.log_eval, ghost_anc0: true, limiter_failures: vec![], inv_seen: BTreeMap::new() };
+    let mut r = Runner { w, out: CaseOut::default(), log_eval: spec.log_eval, ghost_anc0: true, limiter_failures: vec![], lite: spec.spv_n, inv_seen: BTreeMap::new() };
     if r.log_eval || std::env::var("C11_LOG").is_ok() {
         EVAL_ON.store(if std::env::var("C11_LOG").is_ok() { 2 } else { 1 }, Ordering::Relaxed);
     }
@@ -1990,6 +2110,9 @@ async fn run_case(spec: &CaseSpec) -> CaseOut {
                     None => false,
                 };
             }
+        }
+        if let Act::AServe(ServeK::OtherBlock) = act {
+            frame = r.w.pending_fetches.first().map(|f| f.hash != r.w.chain[0].0).unwrap_or(false);
         }
         if let Act::AAnnounce(_, k) = act {
             // remember which crafted blocks must be rejected (same rng stream as the step itself)
@@ -2043,7 +2166,8 @@ async fn run_case(spec: &CaseSpec) -> CaseOut {
             Err(Stop::Panic(p)) => {
                 EVAL_ON.store(0, Ordering::Relaxed);
                 let mut id = classify(&p, act);
-                if id.is_none() && r.w.orphan_delivered {
+                // only the documented consequence of the orphan branch, not every panic after it
+                if id.is_none() && r.w.orphan_delivered && p.msg.contains("invalid total supply") {
                     id = Some("orphan-block-follow-up");
                 }
                 let what = format!("{} panicked in {} at {}: {}", p.node, p.handler, p.loc, p.msg.chars().take(200).collect::<String>());
@@ -2063,7 +2187,7 @@ async fn run_case(spec: &CaseSpec) -> CaseOut {
         r.deferred_verdicts().await;
         if !r.limiter_failures.is_empty() {
             let f = r.limiter_failures[0].clone();
-            r.out.failures.push((pos, act.label(), None, format!("rate limit not enforced: {}", f)));
+            r.out.failures.push((pos, act.label(), None, format!("rule not enforced: {}", f)));
             break;
         }
         if r.w.n.calls + r.w.b.calls - calls0 > MAX_CALLS_PER_STEP {
@@ -2076,7 +2200,8 @@ async fn run_case(spec: &CaseSpec) -> CaseOut {
                     let changed: Vec<String> = before.iter().zip(after.iter()).filter(|(a, b)| a.1 != b.1).map(|(a, b)| format!("{}: {} => {}", a.0, a.1, b.1)).collect();
                     if !changed.is_empty() {
                         let id = match act {
-                            Act::AMsg(_, Msg::GhostChain(_)) | Act::AFlood(_, Msg::GhostChain(_), _) => Some("unsolicited-ghost-chain-accepted".to_string()),
+                            // since fix 92b2ed5 a full node ignores ghost chains; a lite node still takes them from any peer
+                            Act::AMsg(_, Msg::GhostChain(_)) | Act::AFlood(_, Msg::GhostChain(_), _) if spec.spv_n && changed.iter().all(|c| c.starts_with("chain")) => Some("unsolicited-ghost-chain-accepted-lite".to_string()),
                             _ => None,
                         };
                         let txt: String = changed.join(" ;; ").chars().take(600).collect();
@@ -2163,6 +2288,32 @@ fn scripted(seed: u64) -> Vec<CaseSpec> {
     let mut c = base_spec("orphan-follow-up", seed, cat(vec![vec![Act::HConnect], handshake(2, 0), vec![Act::HTx, Act::AAnnounce(2, BlockK::UnknownParent(true)), Act::Tick(2100), Act::AConnect(3), Act::AMsg(3, Msg::Tx(TxK::Valid)), Act::HBlock(true), Act::AServe(ServeK::AsAnnounced), Act::Tick(5000), Act::HBlock(false), Act::Tick(5000)]]));
     c.loading_completed = false;
     v.push(c);
+    // responses that must be rejected on an entry that already completed its handshake
+    v.push(base_spec("bad-response-after-handshake", seed, cat(vec![handshake(2, 0), vec![Act::AMsg(2, Msg::Response(RespK::Valid(0))), Act::AConnect(3), Act::AMsg(3, Msg::Response(RespK::Valid(0))), Act::AMsg(3, Msg::Challenge), Act::AMsg(3, Msg::Response(RespK::BadSig(0))), Act::AConnect(4), Act::AMsg(4, Msg::Response(RespK::Valid(0))), Act::AMsg(4, Msg::Challenge), Act::AMsg(4, Msg::Response(RespK::OtherMinor(0)))]])));
+    // block buffers at the decoder's boundaries
+    let mut a = cat(vec![vec![Act::HConnect], handshake(2, 0)]);
+    for k in [ServeK::CountPatched(1), ServeK::CountPatched(15), ServeK::HeaderOnly(1), ServeK::HeaderOnly(15), ServeK::CutAt(999), ServeK::CutAt(500)] {
+        a.push(Act::AAnnounce(2, BlockK::Valid));
+        a.push(Act::AServe(k));
+    }
+    v.push(base_spec("block-buffer-boundaries", seed, a));
+    // an entry disconnected for more than 600 s is purged by the routing timer (PeerCollection::remove_disconnected_peers)
+    let mut a = cat(vec![handshake(2, 0), vec![Act::AConnect(3), Act::ADisconnect(2, false)]]);
+    for _ in 0..10 {
+        a.push(Act::Tick(61_000));
+    }
+    a.extend(vec![Act::Tick(5000), Act::AMsg(2, Msg::Ping), Act::AMsg(3, Msg::Ping), Act::AConnect(2), Act::AMsg(2, Msg::Ping)]);
+    v.push(base_spec("purge-after-600s", seed, a));
+    // local events: stun peers, failed connection attempt, a verification batch
+    v.push(base_spec("local-events", seed, vec![Act::HConnect, Act::LStun(true), Act::LStun(true), Act::HTxBatch, Act::LConnErr, Act::AConnect(2), Act::AMsg(2, Msg::Tx(TxK::BadSig)), Act::Tick(1000), Act::LStun(false), Act::LStun(false), Act::HBlock(true), Act::HTxBatch]));
+    // every crafted block kind offered on the tip of a synced full node: the ones that must be rejected first
+    let mut a = cat(vec![vec![Act::HConnect], handshake(2, 0)]);
+    for k in [BlockK::GtLen(0), BlockK::GtLen(96), BlockK::GtLen(98), BlockK::ExtraFee, BlockK::BadMerkle, BlockK::BadCreatorSig, BlockK::WrongId, BlockK::IdZero, BlockK::IssuanceTx, BlockK::HostileHop, BlockK::TypedTx(1), BlockK::TypedTx(3), BlockK::TypedTx(4), BlockK::TypedTx(5), BlockK::TypedTx(7), BlockK::TypedTx(8), BlockK::BadBurnfee, BlockK::OldTs, BlockK::DupInput, BlockK::UnknownParent(true), BlockK::UnknownParent(false), BlockK::TwoGt, BlockK::Valid] {
+        a.push(Act::AAnnounce(2, k));
+        a.push(Act::AServe(ServeK::AsAnnounced));
+    }
+    a.push(Act::HBlock(true));
+    v.push(base_spec("every-crafted-block-on-the-tip", seed, a));
     // key change on an authenticated entry (listed under C17)
     v.push(base_spec("key-change", seed, cat(vec![handshake(2, 0), vec![Act::AMsg(2, Msg::Challenge), Act::AMsg(2, Msg::Response(RespK::Valid(1)))]])));
     // 10: unsolicited ghost chain on a full node
@@ -2195,6 +2346,12 @@ fn scripted(seed: u64) -> Vec<CaseSpec> {
     let mut c = base_spec("ghost-max-id-stall", seed, vec![Act::HConnect, Act::AConnect(2), Act::AMsg(2, Msg::Response(RespK::Valid(0))), Act::AMsg(2, Msg::GhostChain(GcK::MaxLast)), Act::AMsg(2, Msg::GhostReq(IdK::One, HashK::Zero, HashK::Zero))]);
     c.continue_after_known = true;
     c.stall_budget_s = Some((8, "ghost-chain-max-id-request-stall"));
+    v.push(c);
+    // the same on a lite node, which still takes ghost chains from any peer
+    let mut c = base_spec("ghost-max-id-stall-lite", seed, vec![Act::HConnect, Act::AConnect(2), Act::AMsg(2, Msg::Response(RespK::Valid(0))), Act::AMsg(2, Msg::GhostChain(GcK::MaxLast)), Act::AMsg(2, Msg::GhostReq(IdK::One, HashK::Zero, HashK::Zero))]);
+    c.spv_n = true;
+    c.continue_after_known = true;
+    c.stall_budget_s = Some((8, "ghost-chain-max-id-request-stall-lite"));
     v.push(c);
     v
 }
@@ -2319,7 +2476,13 @@ fn random_case(rng: &mut Rng, thorough: bool) -> CaseSpec {
             10..=13 => Act::HTx,
             14..=15 => Act::HDisconnect,
             16..=24 => Act::Tick(*rng.pick(&[100u64, 1000, 2100, 5000, 61_000])),
-            25..=27 => Act::NMine,
+            25..=26 => Act::NMine,
+            27 => match rng.below(4) {
+                0 => Act::LStun(true),
+                1 => Act::LStun(false),
+                2 => Act::LConnErr,
+                _ => Act::HTxBatch,
+            },
             28..=30 => {
                 connected.insert(conn);
                 Act::AConnect(conn)
@@ -2359,7 +2522,12 @@ fn random_case(rng: &mut Rng, thorough: bool) -> CaseSpec {
                 pending_serves -= 1;
                 Act::AServe(match rng.below(10) {
                     0..=5 => ServeK::AsAnnounced,
-                    6 => ServeK::Truncated,
+                    6 => match rng.below(4) {
+                        0 => ServeK::Truncated,
+                        1 => ServeK::CutAt(rng.below(1001) as u16),
+                        2 => ServeK::CountPatched(1 + rng.below(15) as u8),
+                        _ => ServeK::HeaderOnly(1 + rng.below(15) as u8),
+                    },
                     7 => ServeK::Garbage,
                     8 => ServeK::OtherBlock,
                     _ => {
